@@ -140,7 +140,7 @@ def gen_units(rng, family):
     return units, edges, caps
 
 
-ODD_NAMES = ["", "0", " ", "a b", "{}", "%s", "None", "False", "I$", "D$", "L1$data", "${state}", "$state", "$$", "\u00e9x", "\u00df", "\u0130"]
+ODD_NAMES = ["", "0", " ", "a b", "{}", "%s", "None", "False", "any", "*", "all", "default", "a,b", "a|b", "a:b", "#1", "null", "true", "I$", "D$", "L1$data", "${state}", "$state", "$$", "\u00e9x", "\u00df", "\u0130"]
 
 
 def zero_width(rng, units, family):
@@ -161,8 +161,9 @@ def odd_names(rng, units, caps, family=""):
             new = "a b"        # loaded processors are judged against the ASCII-folding loader model: no non-ASCII names there
         if all(d["name"].lower() != new.lower() for d in units.values()):
             units[u]["name"] = new
-    if rng.random() < 0.03:
-        old, new = rng.choice(caps), rng.choice(["", "0", " "])
+    if rng.random() < 0.08:
+        # (names that look like wildcards / lists in richer description languages are plain capability names here)
+        old, new = rng.choice(caps), rng.choice(["", "0", " ", "any", "*", "Any", "all", "ALU,MEM", "a|b", "none", "default"])
         if new not in caps:
             for d in units.values():
                 d["caps"] = [new if c == old else c for c in d["caps"]]
@@ -538,9 +539,44 @@ def ex_forms(incaps):
     return forms
 
 
+MARATHON = {"quick": [1100, 2600, 10100], "thorough": [1100, 2600, 10100, 20100, 40100]}
+
+
+def marathon_case(case, tier):
+    """scale in time: N independent instructions on a single in-out unit of width 1 holding both locks.  The outcome is
+    known in closed form (instance of C03/C06/C08 on a one-unit processor): the run completes, has exactly N cycles, and
+    cycle t shows instruction t-1 alone, unstalled.  Judged here in Python (the driver's quadratic oracles are not made
+    for thousands of cycles).  A default cycle limit, a bounded history or a fixed-size window shows up only here."""
+    core.install_repo()
+    n = MARATHON[tier][case[1]]
+    pj = {"in": [], "out": [], "internal": [], "inout": [{"name": "core", "width": 1, "caps": ["ALU"], "rd": True, "wr": True, "acl": []}]}
+    prog = [{"srcs": [], "dst": "R%d" % (i % 7), "cap": "ALU"} for i in range(n)]
+    impl = run_impl(proc_from_json(pj), prog_from_json(prog))
+    o = None
+    if impl["outcome"] != "done":
+        o = f"a healthy run of {n} independent instructions on a one-unit processor ends with {impl['outcome']} {impl.get('exc', '')} after {len(impl.get('table', []))} cycles"
+    elif len(impl["table"]) != n:
+        o = f"{n} independent instructions on a one-unit processor need exactly {n} cycles, the diagram has {len(impl['table'])}"
+    else:
+        for t, row in enumerate(impl["table"]):
+            if [[u, [list(x) for x in lst]] for u, lst in row if lst] != [["core", [[t, "U"]]]]:
+                o = f"cycle {t + 1} of the marathon does not show instruction {t} alone and unstalled in the unit"
+                break
+    props = {pid: {"app": False, "nontrivial": False, "k": True, "o": None} for pid in PROPS}
+    for pid in ("C03", "C06", "C08"):
+        props[pid] = {"app": True, "nontrivial": True, "k": True, "o": o}
+    rec = {"case": case, "family": "marathon", "digest": "marathon-%d" % n, "tags": ["marathon", "n:%d" % n, "impl:" + impl["outcome"]], "props": props}
+    if o is not None:
+        rec["input"] = {"marathon": n}
+        rec["impl"] = {"outcome": impl["outcome"], "cycles": len(impl.get("table", []))}
+    return rec
+
+
 def cases(tier: str) -> list:
     n = 12000 if tier == "quick" else 400000
     cs = list(range(n))
+    for k in range(len(MARATHON[tier])):
+        cs.insert(1 + 700 * k, ["marathon", k])
     if tier == "thorough":
         # small scope, exhaustively: every program of up to 3 instructions over 2 registers on a catalogue of small
         # well-formed processors (one case id per (processor, first instruction) so that work is spread evenly)
@@ -649,6 +685,8 @@ def intended_prog_json(rng, prog):
 def run_case(case, tier="quick") -> dict:
     if isinstance(case, list) and case and case[0] == "ex":
         return ex_case(case, tier)
+    if isinstance(case, list) and case and case[0] == "marathon":
+        return marathon_case(case, tier)
     family, inp = gen_input(case, tier)
     res = evaluate(inp)
     digest = hashlib.sha1(json.dumps(inp, sort_keys=True).encode()).hexdigest()
@@ -662,12 +700,17 @@ def run_case(case, tier="quick") -> dict:
 
 
 def replay(prop: str, inp: dict) -> dict:
+    if "marathon" in inp:
+        tier = "thorough" if inp["marathon"] not in MARATHON["quick"] else "quick"
+        return marathon_case(["marathon", MARATHON[tier].index(inp["marathon"])], tier)["props"][prop]
     res = evaluate(inp)
     return res["props"][prop]
 
 
 def shrink(prop: str, inp: dict, still_fails) -> dict:
     """greedy: drop instructions, then narrow nothing else (processor kept)"""
+    if "marathon" in inp:
+        return inp
     cur = inp
     changed = True
     while changed:
